@@ -117,6 +117,10 @@ pub trait SubCheck: Sync {
     fn crash_guard(&self) -> bool {
         false
     }
+    /// number of not-yet-known failures after which the whole sub-check stops generating cases
+    fn max_failures(&self) -> usize {
+        3
+    }
     /// maximum number of shrink steps after a failure (expensive cases want fewer)
     fn shrink_iters(&self) -> usize {
         400
@@ -1022,7 +1026,7 @@ fn run_shard<S: SubCheck>(
             }
             if !known {
                 unknown_failures += 1;
-                if unknown_failures >= 3 {
+                if unknown_failures >= s.max_failures() {
                     stop.store(true, Ordering::SeqCst);
                     break;
                 }
